@@ -1,6 +1,7 @@
 // C24: ingest authorisation and key replacement are uniform across protocols.
 // Engine E2 (enumx) on fix/pipeline: SendKeyMode (6) × AcceptOnlyListedKeys × SendKey {unset, S} × ReceiveKeys {∅,{K}} ×
-// ReceiveKeyIDs {∅,{I}} × client key {blank, S, K, key whose ID is I, unlisted U} × ingestion endpoint × event route.
+// ReceiveKeyIDs {∅,{I}} × client key {blank, S, K, key whose ID is I, unlisted U} × key flavour {E&S, classic} × ingestion
+// endpoint × event route.
 // Each request goes through the real client-facing mux / gRPC method handlers; acceptance is read off the status, the
 // key the data carries is read off X-Honeycomb-Team of the /1/batch requests the real transmissions put on the
 // in-memory wire (and off the span handed to the collector for spans this node owns). The reference answers come from
@@ -26,27 +27,42 @@ import (
 	"verif/fix/pipeline"
 )
 
-// None of the keys is a classic key: each has an environment and a key ID behind GET /1/auth.
-const (
-	keyS  = "c24-send-key-SSSS"
-	keyK  = "c24-listed-key-KKKK"
-	keyKI = "c24-id-listed-key-IIII"
-	keyU  = "c24-unlisted-key-UUUU"
-	idI   = "hcxik_c24_listed_id"
-)
+// Two key flavours. "es": Environment & Services keys — each has an environment and a key ID behind GET /1/auth.
+// "classic": 32 hex digits — no environment lookup, no key ID (config.md: ReceiveKeyIDs "does not support legacy API keys"),
+// so in that flavour the "listed-by-id" client is just one more unlisted key.
+type keySet struct {
+	Flavour          string
+	S, K, KI, U, IDI string
+}
 
+var flavours = []keySet{
+	{"es", "c24-send-key-SSSS", "c24-listed-key-KKKK", "c24-id-listed-key-IIII", "c24-unlisted-key-UUUU", "hcxik_c24_listed_id"},
+	{"classic", "5e0d5e0d5e0d5e0d5e0d5e0d5e0d5e0d", "11571ed011571ed011571ed011571ed0", "1d1d1d1d1d1d1d1d1d1d1d1d1d1d1d1d", "0b57ac1e0b57ac1e0b57ac1e0b57ac1e", "hcxik_c24_listed_id"},
+}
+
+// keyIDOf is what GET /1/auth reports as the key's id (the fixture's Honeycomb); Refinery never asks for classic keys.
 func keyIDOf(key string) string {
-	switch key {
-	case "":
+	switch {
+	case key == "":
 		return ""
-	case keyKI:
-		return idI
+	case key == flavours[0].KI || key == flavours[1].KI:
+		return flavours[0].IDI
 	}
 	return "hcxik_other_" + key
 }
 
-var clientKeys = []struct{ Class, Key string }{
-	{"blank", ""}, {"sendkey", keyS}, {"listed", keyK}, {"listed-by-id", keyKI}, {"unlisted", keyU},
+// keyIDSeen is the key ID Refinery can know: none for blank and classic keys.
+func keyIDSeen(fl keySet, key string) string {
+	if fl.Flavour == "classic" {
+		return ""
+	}
+	return keyIDOf(key)
+}
+
+var clientClasses = []string{"blank", "sendkey", "listed", "listed-by-id", "unlisted"}
+
+func (fl keySet) client(class string) string {
+	return map[string]string{"blank": "", "sendkey": fl.S, "listed": fl.K, "listed-by-id": fl.KI, "unlisted": fl.U}[class]
 }
 
 type endpoint struct {
@@ -74,6 +90,7 @@ type caseDesc struct {
 	SendKey       string   `json:"SendKey"`
 	ReceiveKeys   []string `json:"ReceiveKeys"`
 	ReceiveKeyIDs []string `json:"ReceiveKeyIDs"`
+	Flavour       string   `json:"key_flavour"`
 	Client        string   `json:"client_key_class"`
 	ClientKey     string   `json:"client_key"`
 	ClientKeyID   string   `json:"client_key_id"`
@@ -170,7 +187,7 @@ func run(n *pipeline.Node, kc keyConfig, ep endpoint, rt, clientKey string) obse
 				spans[i] = codec.OTLPSpan{TraceID: ids.otlp[owner][i], SpanID: []byte{1, 2, 3, 4, 5, 6, 7, byte(i + 1)}, ParentSpanID: []byte{9, 9, 9, 9, 9, 9, 9, 9},
 					Name: "op", Start: instant, End: instant.Add(time.Millisecond), Attrs: []codec.Field{codec.F("marker", codec.Str(fmt.Sprintf("e%d", i)))}}
 			}
-			cr = codec.OTLPHTTP("/v1/traces", clientKey, "", ep.CT, codec.OTLPTraceMessage(res, spans...))
+			cr = codec.OTLPHTTP("/v1/traces", clientKey, "c24ds", ep.CT, codec.OTLPTraceMessage(res, spans...))
 		} else {
 			recs := make([]codec.OTLPLog, count)
 			for i := range recs {
@@ -179,11 +196,11 @@ func run(n *pipeline.Node, kc keyConfig, ep endpoint, rt, clientKey string) obse
 					recs[i].TraceID, recs[i].SpanID = ids.otlp[owner][i], []byte{1, 2, 3, 4, 5, 6, 7, byte(i + 1)}
 				}
 			}
-			cr = codec.OTLPHTTP("/v1/logs", clientKey, "", ep.CT, codec.OTLPLogsMessage(res, recs...))
+			cr = codec.OTLPHTTP("/v1/logs", clientKey, "c24ds", ep.CT, codec.OTLPLogsMessage(res, recs...))
 		}
 	}
 	if ep.Family == "grpc" {
-		md := map[string]string{}
+		md := map[string]string{"x-honeycomb-dataset": "c24ds"}
 		if clientKey != "" {
 			md["x-honeycomb-team"] = clientKey
 		}
@@ -243,23 +260,21 @@ func main() {
 		}
 		pool <- n
 	}
-	sendKeys := []string{"", keyS}
-	rkeys := [][]string{{}, {keyK}}
-	rids := [][]string{{}, {idI}}
-
 	mk := func(idx []int) (keyConfig, caseDesc, endpoint) {
-		kc := keyConfig{Mode: modes[idx[0]], AcceptOnly: idx[1] == 1, SendKey: sendKeys[idx[2]], ReceiveKeys: rkeys[idx[3]], ReceiveKeyIDs: rids[idx[4]]}
-		ck := clientKeys[idx[5]]
+		fl := flavours[idx[8]]
+		kc := keyConfig{Mode: modes[idx[0]], AcceptOnly: idx[1] == 1, SendKey: []string{"", fl.S}[idx[2]], ReceiveKeys: [][]string{{}, {fl.K}}[idx[3]], ReceiveKeyIDs: [][]string{{}, {fl.IDI}}[idx[4]]}
+		class := clientClasses[idx[5]]
+		ck := fl.client(class)
 		ep := endpoints[idx[6]]
 		return kc, caseDesc{Mode: kc.Mode, AcceptOnly: kc.AcceptOnly, SendKey: kc.SendKey, ReceiveKeys: kc.ReceiveKeys, ReceiveKeyIDs: kc.ReceiveKeyIDs,
-			Client: ck.Class, ClientKey: ck.Key, ClientKeyID: keyIDOf(ck.Key), Endpoint: ep.Name, Route: routes[idx[7]]}, ep
+			Flavour: fl.Flavour, Client: class, ClientKey: ck, ClientKeyID: keyIDSeen(fl, ck), Endpoint: ep.Name, Route: routes[idx[7]]}, ep
 	}
-	dims := []int{len(modes), 2, len(sendKeys), len(rkeys), len(rids), len(clientKeys), len(endpoints), len(routes)}
+	dims := []int{len(modes), 2, 2, 2, 2, len(clientClasses), len(endpoints), len(routes), len(flavours)}
 
 	// determinism self-check: a few cases twice on one node
 	{
 		n := <-pool
-		for _, idx := range [][]int{{1, 1, 1, 1, 1, 4, 7, 0}, {3, 1, 1, 1, 1, 3, 3, 1}, {5, 0, 1, 0, 0, 0, 0, 0}} {
+		for _, idx := range [][]int{{1, 1, 1, 1, 1, 4, 7, 0, 0}, {3, 1, 1, 1, 1, 3, 3, 1, 0}, {5, 0, 1, 0, 0, 0, 0, 0, 1}, {4, 1, 1, 1, 1, 3, 4, 0, 1}} {
 			kc, d, ep := mk(idx)
 			a, b := ev.J(run(n, kc, ep, d.Route, d.ClientKey)), ev.J(run(n, kc, ep, d.Route, d.ClientKey))
 			if a != b {
@@ -277,6 +292,7 @@ func main() {
 	}
 	var mu sync.Mutex
 	var found []finding
+	samples := map[int]any{}
 	enumx.Each(r, "key-matrix", dims, workers, func(idx []int) {
 		n := <-pool
 		defer func() { pool <- n }()
@@ -305,7 +321,16 @@ func main() {
 				lin = lin*dims[i] + x
 			}
 			mu.Lock()
-			found = append(found, finding{lin, fmt.Sprintf("%s:%s:mode=%s:client=%s", rule, ep.Sig, kc.Mode, d.Client),
+			eff := "unlisted" // the client's key as the configuration sees it
+			switch {
+			case d.ClientKey == "":
+				eff = "blank"
+			case kc.listed(d.ClientKey, d.ClientKeyID):
+				eff = "listed"
+			case kc.SendKey != "" && d.ClientKey == kc.SendKey:
+				eff = "sendkey"
+			}
+			found = append(found, finding{lin, fmt.Sprintf("%s:%s:mode=%s:client=%s", rule, ep.Sig, kc.Mode, eff),
 				fmt.Sprintf("%s; expected: %s; observed: %s keys=%v; case=%s", what, expect, o.Status, o.Keys, ev.J(d)), map[string]any{"case": d, "observed": o, "expected": expect}})
 			mu.Unlock()
 		}
@@ -349,10 +374,15 @@ func main() {
 		if cls != "accepted:own-key" {
 			r.Distinct("distinct_nontrivial", fmt.Sprintf("%s|%v|%s|%v|%v|%s|%s", kc.Mode, kc.AcceptOnly, kc.SendKey, kc.ReceiveKeys, kc.ReceiveKeyIDs, d.Client, cls))
 		}
-		r.Distinct("observed_outcomes", fmt.Sprintf("%s|%v|%v", ep.Sig, o.Accepted, keyClasses(o.Keys, d.ClientKey)))
-		if cls == "accepted:replaced" && idx[6] == 7 && idx[7] == 0 && r.Count("sampled") < 8 {
-			r.Add("sampled", 1)
-			r.Sample(map[string]any{"case": d, "expected": expect, "observed": o})
+		r.Distinct("observed_outcomes", fmt.Sprintf("%s|%v|%v", ep.Sig, o.Accepted, keyClasses(o.Keys, d.ClientKey, flavours[idx[8]].S)))
+		if cls != "accepted:own-key" && idx[6] == 7 && idx[7] == 0 && idx[8] == 0 && idx[2] == 1 && idx[3] == 1 && idx[4] == 1 && idx[1] == 1 && idx[5] >= 3 {
+			lin := 0
+			for i, x := range idx {
+				lin = lin*dims[i] + x
+			}
+			mu.Lock()
+			samples[lin] = map[string]any{"case": d, "expected": expect, "observed": o}
+			mu.Unlock()
 		}
 	})
 	for i := 0; i < workers; i++ {
@@ -371,14 +401,22 @@ func main() {
 		}
 	}
 	r.Set("failing_cases", len(found))
+	var sk []int
+	for k := range samples {
+		sk = append(sk, k)
+	}
+	sort.Ints(sk)
+	for _, k := range sk {
+		r.Sample(samples[k])
+	}
 	r.Set("rule", "per case: authorised := ¬AcceptOnlyListedKeys ∨ client key ∈ ReceiveKeys ∨ key ID ∈ ReceiveKeyIDs ∨ (SendKey set ∧ client key = SendKey); ¬authorised ⇒ refused and nothing forwarded; authorised ∧ documented key non-blank ⇒ accepted and every event (X-Honeycomb-Team of the decoded /1/batch request on the wire, or the span handed to the collector) carries exactly the documented key; no event anywhere with a blank key; refused ⇒ nothing forwarded")
 	r.Set("bounds", map[string]any{"modes": modes, "AcceptOnlyListedKeys": []bool{false, true}, "SendKey": []string{"unset", "S"}, "ReceiveKeys": "∅ | {K}", "ReceiveKeyIDs": "∅ | {I}",
-		"client_keys": []string{"blank", "S", "K", "key with ID I", "unlisted U"}, "endpoints": len(endpoints), "routes": routes})
+		"client_keys": []string{"blank", "S", "K", "key with ID I", "unlisted U"}, "key_flavours": []string{"E&S (environment + key ID)", "classic (32 hex, no key ID)"}, "endpoints": len(endpoints), "routes": routes})
 	r.Assume("'listed' = the key is in ReceiveKeys or its key ID (id of GET /1/auth) is in ReceiveKeyIDs, in the acceptance condition AND in the listedonly/unlisted rows of the table (both settings are documented as keys 'the proxy will treat specially'); a blank key is never listed")
 	r.Assume("'equals SendKey' requires a configured (non-empty) SendKey; with SendKey unset every mode leaves the client's key alone")
 	r.Assume("a request whose documented upstream key is blank cannot satisfy both 'accepted' and 'never leaves with a blank key': for those cells only 'nothing leaves with a blank (or any undocumented) key' is checked, refusal is allowed")
 	r.Assume("mode unlisted with a blank client key: the table row says SendKey for all events except listed ones, but does not say 'even missing ones' as the row for `all` does; both 'sent with SendKey' and 'refused as blank' are accepted")
-	r.Assume("scope: client-facing listener; all keys are non-classic (environment + key ID known to /1/auth); what a refusal's status code is (401 / Unauthenticated) is not checked, only refused vs accepted")
+	r.Assume("scope: client-facing listener; within one case all keys have the same flavour (E&S or classic); a classic key has no key ID, so ReceiveKeyIDs cannot list it; what a refusal's status code is (401 / Unauthenticated) is not checked, only refused vs accepted")
 	r.Assume("a span owned by this node is observed at hand-over to the collector (the key it will later be sent with); everything else on the in-memory wire")
 	r.Finish()
 }
@@ -391,7 +429,7 @@ func quoteAll(l []string) []string {
 	return out
 }
 
-func keyClasses(keys []string, client string) []string {
+func keyClasses(keys []string, client, sendKey string) []string {
 	set := map[string]bool{}
 	for _, k := range keys {
 		key := k[strings.Index(k, ":")+1:]
@@ -400,7 +438,7 @@ func keyClasses(keys []string, client string) []string {
 			set["blank"] = true
 		case client:
 			set["client"] = true
-		case keyS:
+		case sendKey:
 			set["sendkey"] = true
 		default:
 			set["other"] = true
